@@ -1104,9 +1104,13 @@ func (e *Entry) Augment(addErrors bool) (processed, skipped int) {
 	var unapplied []*Entry
 	for _, a := range e.Augments {
 		target := a.Find(a.Name)
-		if target == nil {
+		if target == nil || target.Dir == nil {
 			if addErrors {
-				e.errorf("%s: augment %s not found", Source(a.Node), a.Name)
+				if target == nil {
+					e.errorf("%s: augment %s not found", Source(a.Node), a.Name)
+				} else {
+					e.errorf("%s: augment %s: target cannot have child nodes", Source(a.Node), a.Name)
+				}
 			}
 			skipped++
 			unapplied = append(unapplied, a)
